@@ -183,7 +183,7 @@ def finding_key(ob, rec):
 def spec(tier, seed):
     _init()
     obs = []
-    npool = 14 if tier == "quick" else 16
+    npool = 14
     for hi, h in enumerate(HEADS):
         fn = "h%d" % hi
         # selectors are folded into their boxes (no rejected paths); unused argument selectors are not forked on
@@ -192,17 +192,17 @@ def spec(tier, seed):
              "    k = _sk.box(n, 0, %d)" % (2 if tier == "quick" else 3),
              "    b0 = _sk.box(a0, 0, %d) if k >= 1 else 0" % (npool - 1),
              "    b1 = _sk.box(a1, 0, %d) if k >= 2 else 0" % (npool - 1),
-             "    b2 = _sk.box(a2, 0, %d) if k >= 3 else 0" % ((6 if tier == "quick" else 4) - 1),
+             "    b2 = _sk.box(a2, 0, %d) if k >= 3 else 0" % ((6 if tier == "quick" else 2) - 1),
              "    return tree_ok(%d, k, b0, b1, b2)" % hi]
         obs.append(Ob(fn, "\n".join(L), sample="(%s ARGS...) with 0..%d arguments from the atom pool" % (h, 2 if tier == "quick" else 3), group="head"))
-    nsp = 12 if tier == "thorough" else 8
+    nsp = 10 if tier == "thorough" else 8
     # quick: A in {x, True} for (h A S), A = x for (h S A) and (h A S T), no (h S S'); thorough: the whole boxes
     for hi, h in enumerate(HEADS):
         fn = "g%d" % hi
         L = ["def %s(mode: int, a: int, s: int, s2: int) -> bool:" % fn, '    """', "    post: _", '    """']
         if tier == "thorough":
             L += ["    m = _sk.box(mode, 0, 4)",
-                  "    b = _sk.box(a, 0, 5) if m in (0, 1, 3) else 0",
+                  "    b = _sk.box(a, 0, 3) if m in (0, 1, 3) else 0",
                   "    c = _sk.box(s, 0, %d)" % (nsp - 1),
                   "    d = (_sk.box(s2, 0, %d) if m == 2 else (_sk.box(s2, 0, 2) if m == 3 else 0))" % (nsp - 1)]
         else:
@@ -226,8 +226,8 @@ def spec(tier, seed):
         "functions_encoded": ["hy.compiler.hy_compile / HyASTCompiler.compile_expression", "every pattern_macro in hy.core.result_macros and core macro in hy.core.macros (heads read from builtins._hy_macros at run time: %d)" % len(HEADS),
                               "hy.model_patterns", "hy.macros.macroexpand", "CPython compile() and marshal as the validity oracle"],
         "bounds": "head = every core macro (%d); 0..%d arguments, the first two from the first %d atoms of the pool %r, the third from the first %d; plus, per head, the shapes "
-                  "(h A S), (h S A), (h S S'), (h A S T), (h S) with S, S' from the %d statement-producing / unusual operands %r (quick tier: the first 8 operands, A in {x, True} resp. x, no (h S S'); thorough tier: the first 12 operands, A from the first 6 atoms)" % (
-            len(HEADS), 2 if tier == "quick" else 3, npool, POOL_TEXT, 6 if tier == "quick" else 4, len(SPOOL_TEXT), SPOOL_TEXT),
+                  "(h A S), (h S A), (h S S'), (h A S T), (h S) with S, S' from the %d statement-producing / unusual operands %r (quick tier: the first 8 operands, A in {x, True} resp. x, no (h S S'); thorough tier: the first 10 operands, A from the first 4 atoms, (h S S') included)" % (
+            len(HEADS), 2 if tier == "quick" else 3, npool, POOL_TEXT, 6 if tier == "quick" else 2, len(SPOOL_TEXT), SPOOL_TEXT),
         "outside": "deeper nesting (property text: depth 5); more than 3 arguments; atoms outside the pool; reader macros",
         "stubs": ["the compile of each decoded tree runs under crosshair.tracers.NoTracing (nothing symbolic enters it)"],
         "assumptions": ["user-facing = HyLanguageError subclasses and SyntaxError (incl. CPython's own SyntaxError from compile()); RecursionError is not counted"],
